@@ -199,6 +199,17 @@ func (s *state) runSite(fn *ssa.Function, site string, pos token.Pos, rs []Val) 
 				for _, x := range c.exprs {
 					s.useHint(e, x, pos, funcKey(fn)+":"+strings.ReplaceAll(site, " ", "_"))
 				}
+			case "inst":
+				// extra instantiation candidates for quantified hypotheses
+				for _, x := range c.exprs {
+					v := e.eval(x)
+					if v.K != nil {
+						v = s.u.mat(v, nil)
+					}
+					for k, l := range s.u.m.leaves(v.T) {
+						s.cands = append(s.cands, binder{v.S[k], l.sort})
+					}
+				}
 			case "ghost":
 				s.ghostAssign(e, c.label, c.e, pos)
 			}
@@ -287,6 +298,18 @@ func (s *state) useHint(e *env, x *sexpr, pos token.Pos, site string) {
 		if sf := s.u.eng.findSpec(e.pkg, exprStr(call.Fun)); sf != nil && (sf.kind == "axiom" || sf.kind == "lemma") {
 			s.pc = append(s.pc, e.useInstance(x))
 			return
+		}
+		// forall(x, T, ..., Lemma(args)): a universally quantified lemma instance
+		if id, ok := call.Fun.(*ast.Ident); ok && id.Name == "forall" && len(call.Args) >= 3 {
+			if inner, ok := call.Args[len(call.Args)-1].(*ast.CallExpr); ok {
+				if sf := s.u.eng.findSpec(e.pkg, exprStr(inner.Fun)); sf != nil && (sf.kind == "axiom" || sf.kind == "lemma") {
+					s.pc = append(s.pc, e.evalBool(x))
+					if sf.kind == "lemma" {
+						s.u.notes["lemma used: "+sf.name+" (proved separately)"] = true
+					}
+					return
+				}
+			}
 		}
 		// old(Axiom(args)): the instance is taken over the entry state
 		if id, ok := call.Fun.(*ast.Ident); ok && id.Name == "old" && len(call.Args) == 1 && e.old != nil {
